@@ -1,11 +1,170 @@
 import TdVerif.Sexp
+import TdVerif.Model.Key
+import TdVerif.Model.C04Tree
 
 namespace TdVerif.Drive
 open TdVerif Sexp
+open TdVerif.C04
 
+namespace C04D
+
+def hexVal (c : Char) : Option Nat :=
+  if '0' ≤ c ∧ c ≤ '9' then some (c.toNat - '0'.toNat)
+  else if 'a' ≤ c ∧ c ≤ 'f' then some (c.toNat - 'a'.toNat + 10)
+  else none
+
+/-- atoms carrying arbitrary strings travel as `h<hex of the utf-8 bytes>` -/
+def unhex (s : String) : Option String :=
+  match s.toList with
+  | 'h' :: cs =>
+    let rec go : List Char → List UInt8 → Option (List UInt8)
+      | [], acc => some acc.reverse
+      | [_], _ => none
+      | a :: b :: r, acc => do
+        let x ← hexVal a; let y ← hexVal b
+        go r ((UInt8.ofNat (x * 16 + y)) :: acc)
+    match go cs [] with
+    | some bytes => String.fromUTF8? ⟨bytes.toArray⟩
+    | none => none
+  | _ => none
+
+def hexDigit (n : Nat) : Char := if n < 10 then Char.ofNat (48 + n) else Char.ofNat (87 + n)
+
+def tohex (s : String) : String :=
+  "h" ++ String.ofList (s.toUTF8.toList.flatMap fun b => [hexDigit (b.toNat / 16), hexDigit (b.toNat % 16)])
+
+partial def keyOf : Sexp → Option Key
+  | .atom "bad" => some .bad
+  | .list [.atom "s", .atom s] => (unhex s).map Key.str
+  | .list (.atom "t" :: ks) => (ks.mapM keyOf).map Key.tup
+  | _ => none
+
+partial def entryOf : Sexp → Option Entry
+  | .list [.atom "t", n] => (asNat? n).map (Entry.leaf false)
+  | .list [.atom "n", n] => (asNat? n).map (Entry.leaf true)
+  | .list (.atom "d" :: kvs) =>
+    (kvs.mapM fun (kv : Sexp) => match kv with
+      | Sexp.list [Sexp.atom k, v] => do pure ((← unhex k), (← entryOf v))
+      | _ => none).map Entry.node
+  | _ => none
+
+partial def entryTo : Entry → Sexp
+  | .leaf false v => .list [.atom "t", ofNat v]
+  | .leaf true v => .list [.atom "n", ofNat v]
+  | .node kids => .list (.atom "d" :: kids.map fun kv => .list [.atom (tohex kv.1), entryTo kv.2])
+
+def pathTo (p : Path) : Sexp := .list (p.map fun s => .atom (tohex s))
+
+/-- `_unravel_key_to_tuple` (C++ transcription in Model/Key.lean) -/
+def pathOfKey (k : Key) : Path := Key.unravelTupCpp k
+
+def isTupleKey : Key → Bool
+  | .tup _ => true
+  | _ => false
+
+def errTo : Err → String
+  | .key => "key" | .value => "value" | .attr => "attr" | .type => "type" | .index => "index" | .runtime => "runtime"
+
+def outTo : Out → Sexp
+  | .ok => .list [.atom "ok"]
+  | .val none => .list [.atom "ok", .atom "none"]
+  | .val (some v) => .list [.atom "ok", entryTo v]
+  | .res r => .list (.atom "res" :: r.map entryTo)
+  | .err e => .list [.atom "err", .atom (errTo e)]
+
+def boolOf : Sexp → Option Bool
+  | .atom "true" => some true
+  | .atom "false" => some false
+  | _ => none
+
+def charOf (s : String) : Option Char :=
+  match s.toList with
+  | [c] => some c
+  | _ => none
+
+def opOf : Sexp → Option Op
+  | .list [.atom "set", k, v] => do pure (.set (pathOfKey (← keyOf k)) (← entryOf v))
+  | .list [.atom "del", k] => do pure (.del (pathOfKey (← keyOf k)))
+  | .list [.atom "pop", k, d] => do pure (.pop (pathOfKey (← keyOf k)) (← boolOf d))
+  | .list [.atom "rename", o, n, s] => do pure (.rename (pathOfKey (← keyOf o)) (pathOfKey (← keyOf n)) (← boolOf s))
+  | .list [.atom "setdefault", k, v] => do
+      let kk ← keyOf k
+      pure (.setdefault (pathOfKey kk) (isTupleKey kk) (← entryOf v))
+  | .list (.atom "update" :: items) => do
+      let its ← items.mapM fun (it : Sexp) => match it with
+        | Sexp.list [k, v] => do pure (pathOfKey (← keyOf k), (← entryOf v))
+        | _ => none
+      pure (.update its)
+  | .list [.atom "select", .list ks, s, i] => do
+      pure (.select ((← ks.mapM keyOf).map pathOfKey) (← boolOf s) (← boolOf i))
+  | .list [.atom "exclude", .list ks, i] => do
+      pure (.exclude ((← ks.mapM keyOf).map pathOfKey) (← boolOf i))
+  | .list [.atom "flatten", .atom sep, i] => do pure (.flatten (← unhex sep) (← boolOf i))
+  | .list [.atom "unflatten", .atom sep, i] => do pure (.unflatten (← charOf (← unhex sep)) (← boolOf i))
+  | .list [.atom "split", .list sets, i, s] => do
+      let ss ← sets.mapM fun (ks : Sexp) => match ks with
+        | Sexp.list l => do pure ((← l.mapM keyOf).map pathOfKey)
+        | _ => none
+      pure (.split ss (← boolOf i) (← boolOf s))
+  | .list [.atom "clear"] => some .clear
+  | .list [.atom "empty"] => some .empty
+  | _ => none
+
+def exceptBool : Except Err Bool → Sexp
+  | .ok b => .atom (if b then "true" else "false")
+  | .error e => .atom ("err:" ++ errTo e)
+
+/-- base.py:TensorDictBase.__contains__ : a `str` goes to `keys()`, a tuple is unravelled and goes to `keys(True)` -/
+def baseContains (k : Key) (t : Entry) : Except Err Bool :=
+  match k with
+  | .str s => containsFlat [s] t
+  | .tup _ =>
+    match Key.unravelKeyCpp k with
+    | .s x => containsNested [x] t
+    | .t [] => .error .runtime
+    | .t l => containsNested l t
+    | .err => .error .runtime
+  | .bad => .error .runtime
+
+def allCfgs : List ViewCfg :=
+  [false, true].flatMap fun a => [false, true].flatMap fun b => [false, true].flatMap fun c =>
+    [false, true].map fun d => ⟨a, b, c, d⟩
+
+def b01 (b : Bool) : String := if b then "1" else "0"
+
+def obsTo (t : Entry) (probes : List Key) : Sexp :=
+  let views := allCfgs.map fun c =>
+    .list [.atom (b01 c.nested ++ b01 c.leavesOnly ++ b01 c.sort ++ b01 c.ntLeaf),
+           .list ((keysView c t).map pathTo),
+           .list ((itemsView c t).map fun kv => .list [pathTo kv.1, entryTo kv.2])]
+  let pr := probes.map fun k =>
+    let p := pathOfKey k
+    .list [exceptBool (baseContains k t), exceptBool (containsNested p t),
+           match getTuple p t with
+           | .ok none => .atom "none"
+           | .ok (some v) => entryTo v
+           | .error e => .atom ("err:" ++ errTo e)]
+  .list [.list views, .list pr, .atom (if isEmpty t then "true" else "false")]
+
+end C04D
+
+open C04D in
 /-- line-protocol handler for C04: commands are named `c04.<something>` -/
 def handleC04 (cmd : String) (args : List Sexp) : Option Sexp :=
   match cmd, args with
+  | "c04.step", [t, op, .list probes] => do
+      let t ← entryOf t
+      let op ← opOf op
+      let ks ← probes.mapM keyOf
+      let (t', out) := step t op
+      pure (.list [entryTo t', outTo out, obsTo t' ks])
+  | "c04.unravel", [k] => do
+      let k ← keyOf k
+      pure (.list [pathTo (Key.unravelTupCpp k),
+        match Key.unravelKeyCpp k with
+        | .s x => .list [.atom "s", .atom (tohex x)]
+        | .t l => .list (.atom "t" :: l.map fun s => .atom (tohex s))
+        | .err => .atom "err"])
   | _, _ => none
 
 end TdVerif.Drive
